@@ -10,7 +10,41 @@ import (
 	"context"
 	"sync"
 	"sync/atomic"
+
+	"github.com/openGemini/openGemini/engine/comm"
+	"github.com/openGemini/openGemini/lib/errno"
+	"github.com/openGemini/openGemini/lib/interruptsignal"
+	"github.com/openGemini/openGemini/lib/logger"
+	"github.com/openGemini/openGemini/lib/metaclient"
+	"github.com/openGemini/openGemini/lib/record"
+	meta2 "github.com/openGemini/openGemini/lib/util/lifted/influx/meta"
 )
+
+// VerifC04NewEngineInstance builds a further EngineImpl exactly as NewEngine does, but without setting the package-wide
+// limits and switches again (NewEngine is meant to run once per process, before any background goroutine exists; the
+// harness calls NewEngine once and this constructor for every further engine of the same process).
+func VerifC04NewEngineInstance(dataPath, walPath string, options EngineOptions, ctx *metaclient.LoadCtx) *EngineImpl {
+	eng := &EngineImpl{
+		closed:               interruptsignal.NewInterruptSignal(),
+		dataPath:             dataPath,
+		walPath:              walPath,
+		engOpt:               options,
+		DBPartitions:         make(map[string]map[uint32]*DBPTInfo, 64),
+		loadCtx:              ctx,
+		log:                  logger.NewLogger(errno.ModuleStorageEngine),
+		droppingDB:           make(map[string]string),
+		droppingRP:           make(map[string]string),
+		droppingMst:          make(map[string]string),
+		migratingDbPT:        make(map[string]map[uint32]struct{}),
+		fileInfos:            nil,
+		onPTOffload:          make(map[uint64]func(ptID uint32)),
+		clearRepColdShardMap: make(map[string]struct{}),
+		clearRepColdIndexMap: make(map[string]struct{}),
+	}
+	eng.DownSamplePolicies = make(map[string]*meta2.StoreDownSamplePolicy)
+	return eng
+}
+
 
 // VerifC04EngineOf returns the implementation behind the Engine interface NewEngine hands out.
 func VerifC04EngineOf(e Engine) *EngineImpl {
@@ -72,4 +106,42 @@ func (e *EngineImpl) VerifC04CheckAndGetDBPTInfo(db string, pt uint32) error {
 // VerifC04DropMeasurement is shard.DropMeasurement (what DeleteMstInShard / DropMeasurement call per shard).
 func (v *VerifC04Shard) VerifC04DropMeasurement(name string) error {
 	return v.sh.DropMeasurement(context.TODO(), name)
+}
+
+// VerifC04DrainInfo reads every cursor of an index-scan result obtained through the ordinary plan path
+// (EngineImpl.CreateLogicalPlan -> shard.CreateLogicalPlan -> executor.LogicalDummyShard.GetIndexInfo) the way
+// VerifC04Scan does, hands every record (one series per record, valid during the call) to emit and releases the
+// references of the result. Returns the number of cursors.
+func VerifC04DrainInfo(info comm.TSIndexInfo, emit func(seriesKey []byte, rec *record.Record)) (int, error) {
+	if info == nil {
+		return 0, nil
+	}
+	defer info.Unref()
+	cursors := info.GetCursors()
+	var first error
+	for _, cur := range cursors {
+		if gc, ok := cur.(*groupCursor); ok {
+			gc.preAgg = true
+			for i := range gc.tagSetCursors {
+				if ts, ok := gc.tagSetCursors[i].(*tagSetCursor); ok {
+					ts.SetNextMethod()
+				}
+			}
+		}
+		for first == nil {
+			rec, si, err := cur.Next()
+			if err != nil {
+				first = err
+				break
+			}
+			if rec == nil {
+				break
+			}
+			emit(si.GetSeriesKey(), rec)
+		}
+		if err := cur.Close(); err != nil && first == nil {
+			first = err
+		}
+	}
+	return len(cursors), first
 }
